@@ -140,7 +140,7 @@ def helpers_only_of(facts, crate, is_root):
                         succ[bid].add(cid)
             for st in blk["stmts"]:
                 if st["k"] == "assign" and st["rv"].get("k") == "agg" and st["rv"].get("agg") == "closure":
-                    cid = st["rv"].get("closure") or st["rv"].get("def")
+                    cid = st["rv"].get("id")
                     if cid in bodies:
                         succ[bid].add(cid)
         par = b.get("parent")
